@@ -147,6 +147,23 @@ theorem mem_pushBack {size now k v : Nat} {c : List (Nat × Nat × Nat)} {e}
   · exact .inl h
   · exact .inr (mem_freeUp h.1)
 
+/-! ## the metrics flush is written in place (regenerated flag `flushSynchronous`) -/
+
+theorem flushSync : Gen.Store.flushSynchronous = true := rfl
+
+/-- `payment_received` as the current source has it: count and metrics file updated together, nothing spawned -/
+theorem payment_eq (s : St) : payment s = paymentSync s := by
+  simp [payment, flushSync]
+
+/-- `with_config` as the current source has it: nothing spawned, the metrics file holds the restored count -/
+theorem restart_tasks (cfg : Cfg) (dist : Nat → Nat) (disk : List (Nat × File)) (hist : Option Nat) (n : Nat) :
+    (restart cfg dist disk hist n).tasks = [] := by
+  simp [restart, flushSync]
+
+theorem restart_hist (cfg : Cfg) (dist : Nat → Nat) (disk : List (Nat × File)) (hist : Option Nat) (n : Nat) :
+    (restart cfg dist disk hist n).hist = some (hist.getD 0) := by
+  simp [restart, flushSync]
+
 /-! ## `Sound`: every cached value, file and pending write carries a value put for that key -/
 
 def fileVal : File → Nat
@@ -290,12 +307,8 @@ theorem Sound.step {cfg : Cfg} {dist : Nat → Nat} {s : St} (h : Sound P s) (op
   | setRange r => exact ⟨h.cache, h.disk, h.tasks⟩
   | cleanup => exact h.cleanup
   | payment =>
-    refine ⟨h.cache, h.disk, ?_⟩
-    intro i k v rt hm
-    simp only [SafeNet.Store.step, SafeNet.Store.payment, List.mem_append, List.mem_singleton, Prod.mk.injEq] at hm
-    rcases hm with hm | hm
-    · exact h.tasks i k v rt hm
-    · cases hm.2
+    simp only [SafeNet.Store.step, payment_eq]
+    exact ⟨h.cache, h.disk, h.tasks⟩
   | crash torn =>
     simp only [SafeNet.Store.step]
     split
